@@ -29,7 +29,24 @@ var res *report.Result
 
 var alphabet = []string{"a", "..", ".", "%2e%2e", "%2E%2e", "%2e", "", "%2f", "..%2f", ";p", "%252e%252e",
 	// segments that repeat, extend or abbreviate the segments of the configured base paths (/base, /base/v1/)
-	"base", "basement", "v1", "v1beta", "bas"}
+	"base", "basement", "v1", "v1beta", "bas",
+	// segments that repeat the route prefixes (an olla behind an olla)
+	"olla", "proxy"}
+
+// plain: a remainder made of ordinary segments only - nothing to decode, normalise or collapse - must arrive as it is
+func plain(rem string) bool {
+	for _, seg := range strings.Split(strings.TrimPrefix(rem, "/"), "/") {
+		if seg == "" {
+			return false
+		}
+		for _, c := range seg {
+			if !(c >= 'a' && c <= 'z' || c >= '0' && c <= '9') {
+				return false
+			}
+		}
+	}
+	return true
+}
 
 // hasDotSegment: after one percent-decoding, does the remainder contain a ".." segment? (The recorded
 // preserve_path deviation needs one; an escape without any is a different defect.)
@@ -233,6 +250,14 @@ func e2() {
 					if q.Query() != "k=%2e%2e&z=../x" && !reported["q"] {
 						reported["q"] = true
 						res.Violate("query-altered", map[string]any{"part": "E2"}, cell+fmt.Sprintf("\nbackend saw query %q", q.Query()), rp)
+					}
+					// "its path is the request's remaining path, placed under the endpoint's base path when preserve_path is set"
+					if plain(rem) && (ec.preserve || ec.base == "") {
+						want := ec.base + rem
+						if q.Path() != want && !reported["rem"] {
+							reported["rem"] = true
+							res.Violate("path-is-not-the-remaining-path", map[string]any{"part": "E2", "preserve_path": ec.preserve}, cell+fmt.Sprintf("\nbackend was asked for %q, the remaining path under the base path is %q", q.Path(), want), rp)
+						}
 					}
 					if ec.preserve {
 						norm, ok := normalise(q.Path())
